@@ -788,6 +788,61 @@ for s_i in range(NIMM):
                                geometry=geom_replay(gm) if times.size <= 12 else "immersion set-up (too large to inline); seed and tier replay it"))
 samples.append({"immersion": f"{NIMM} set-ups, {nt} traced rays: sum leg/velocity == rays.times"})
 
+# 4b. LARGE first/last point sets (more points than a 16-bit index can address): the rays traced by arim
+#     (default solver options) are read back through RayGeometry and compared with the definition
+#     evaluated directly with numpy on the interface coordinates and on Rays.indices promoted to int64.
+def large_set_case(numscat, c_order):
+    setup = arimgen.immersion_setup(rng, numelements=2, numscat=numscat, max_refl=1, wall_points=40, trace=False)
+    arim.ray.ray_tracing_for_paths(list(setup["paths"].values()), convert_to_fortran_order=not c_order)
+    name = str(rng.choice(sorted(setup["paths"])))
+    path = setup["paths"][name]
+    rg = arim.ray.RayGeometry.from_path(path)
+    idx = [np.asarray(a).astype(np.int64) for a in path.rays.indices]
+    nif = len(path.interfaces)
+    why = None
+    for k in range(nif):
+        npts = len(path.interfaces[k].points)
+        if idx[k].min() < 0 or idx[k].max() >= npts:
+            why = f"Rays.indices[{k}] outside 0..{npts - 1}: min {int(idx[k].min())} max {int(idx[k].max())}"
+            break
+    if why is None and not np.array_equal(idx[-1], np.broadcast_to(np.arange(numscat), idx[-1].shape)):
+        why = "Rays.indices[-1][i, j] != j"
+    tot = 0.0
+    if why is None:
+        pts = [np.asarray(path.interfaces[k].points.coords)[idx[k]] for k in range(nif)]
+        for k in range(1, nif):
+            want = np.linalg.norm(pts[k] - pts[k - 1], axis=-1)
+            got = np.asarray(rg.inc_leg_size(k))
+            if not np.allclose(got, want, rtol=1e-12, atol=0):
+                bad = np.argwhere(~np.isclose(got, want, rtol=1e-12, atol=0))[0]
+                why = (f"inc_leg_size({k}) of ray {tuple(int(b) for b in bad)} is {got[tuple(bad)]!r}, the distance between "
+                       f"the ray's consecutive points is {want[tuple(bad)]!r}")
+                break
+            if not np.array_equal(np.asarray(rg.leg_points(k).coords), pts[k]):
+                why = f"leg_points({k}) differs from interface coordinates taken at Rays.indices"
+                break
+            tot = tot + want / float(path.velocities[k - 1])
+    if why is None and not np.allclose(tot, np.asarray(path.rays.times), rtol=1e-11, atol=0):
+        why = "sum of leg lengths / velocities differs from rays.times"
+    return name, why, idx[-1].size
+
+
+NLARGE = 1 if Q else 4
+nl = 0
+for t in range(NLARGE):
+    numscat = int(rng.integers(33000, 40000)) if t % 2 == 0 else int(rng.integers(66000, 70000))
+    c_order = bool(t % 4 < 2)
+    name, why, nr = large_set_case(numscat, c_order)
+    nl += nr
+    stats["large_set_rays"] = stats.get("large_set_rays", 0) + nr
+    if why:
+        chk.violation("spec:large_point_set", f"path {name}, last point set of {numscat} points: {why}",
+                      dict(path=name, numscat=numscat, c_order=c_order, numelements=2, wall_points=40,
+                           how="arimgen.immersion_setup(rng, numelements=2, numscat=numscat, max_refl=1, wall_points=40) "
+                               "then arim.ray.ray_tracing_for_paths; seed and tier replay it"))
+evaluations += nl
+samples.append({"large sets": f"{NLARGE} set-ups with 33000..70000 target points, {nl} rays: indices in range, legs, points, times"})
+
 # ---------------------------------------------------------------------------
 # 5. the extracted driver against the same terms evaluated by vm_compute inside coqc (binary64
 #    primitive floats; libm-free observables bit for bit, outcome kinds of the others)
